@@ -69,6 +69,13 @@ def cases(tier, seed):
         d.update({"fields": ["temp", "density", "Z"], "payload": ["affidx*1e12", "affidx+hostile", "affidx*1e-15"], "seed": seed,
                   "layout": [scope.layouts(len(b), 'idrev')[0] for b in mesh["levels"]]})
         out.append({"desc": d, "w": len(mesh["levels"]) ** 2})
+    # level directories named otherwise than Level_k
+    m_ = meshes(tier)[1]
+    d = dict(m_)
+    d.update(list(scope.geometries(3))[(seed + 4) % 6])
+    d.update({"fields": ["temp", "density", "Z"], "payload": "affidx", "seed": seed, "levelprefix": "Lev_",
+              "layout": [scope.layouts(len(b), 'idrev')[-1] for b in m_["levels"]]})
+    out.append({"desc": d, "w": 4})
     # seven levels towards the far corner, twelve fields: FAB header lines longer than 100 bytes
     d = dict(scope.deep_corner_mesh())
     d.update(list(scope.geometries(3))[(seed + 1) % 6])
